@@ -201,12 +201,12 @@ def run(ctx):
             ctx.count('circuits-marginalised-after-a-history')
             hist_extra = dict(table0=table_with_py(t0, o0), steps=steps)
         one_case(ctx, f'rand{k}' + (f' after {Hist.brief(hist_extra["steps"])}' if hist_extra else ''), root, rs, 4 if quick else 12, history=hist_extra)
-        if ctx.n_new() >= 3:
+        if ctx.n_new(with_input_only=True) >= 3:
             return
     for name, root, rs, cfg in learned_cases(ctx, 8 if quick else 120):
         ctx.count(name)
         one_case(ctx, name, root, rs, 3 if quick else 8, rep_extra=cfg)
-        if ctx.n_new() >= 3:
+        if ctx.n_new(with_input_only=True) >= 3:
             return
 
 
